@@ -16,7 +16,7 @@ import os
 from .. import core, tlc
 
 LEVEL = "model_checking"
-KINDS = ["epath", "status", "typed", "logix", "ucsend", "frames", "fwd"]
+KINDS = ["epath", "status", "typed", "logix", "ucsend", "frames", "fwd", "cpf"]
 
 
 def _replay(v):
@@ -170,6 +170,53 @@ def _replay(v):
                 if bytes(bytearray(g.request.input)) != bytes(bytearray(v["msg"])):
                     out.append("unconnected_send: embedded message differs")
                 same("unconnected_send.produce(parse)", parser.unconnected_send.produce(g))
+        elif k == "cpf":
+            g = parsed("CPF", parser.CPF(terminal=True), v["b"], {}, "CPF")
+            if g is not None:
+                items = g.get("item") or []
+                if (g.get("count", len(items)) if v["items"] else g.get("count", 0)) != len(v["items"]) or len(items) != len(v["items"]):
+                    out.append("CPF: %d items parsed, %d encoded" % (len(items), len(v["items"])))
+                else:
+                    mine = []
+                    for it, w in zip(items, v["items"]):
+                        fields = {"type_id": w["type"]}
+                        if w["kind"] == "raw":
+                            if bytes(bytearray(it.get("input") or b"")) != bytes(bytearray(w["raw"])) or it.length != len(w["raw"]):
+                                out.append("CPF: unrecognized item 0x%04x not kept as its octets" % w["type"])
+                            fields["input"] = bytearray(w["raw"])
+                        elif w["kind"] == "null":
+                            if it.length != 0:
+                                out.append("CPF: null address item with length %d" % it.length)
+                        elif w["kind"] == "ucdata":
+                            if bytes(bytearray(it.unconnected_send.request.input)) != bytes(bytearray(w["msg"])):
+                                out.append("CPF: unconnected data item message differs")
+                            fields["unconnected_send"] = {"request": {"input": bytearray(w["msg"])}}
+                        elif w["kind"] == "connaddr":
+                            if it.connection_ID.connection != int.from_bytes(bytes(bytearray(w["cid"])), "little"):
+                                out.append("CPF: connection id differs")
+                            fields["connection_ID"] = {"connection": int.from_bytes(bytes(bytearray(w["cid"])), "little")}
+                        elif w["kind"] == "conndata":
+                            if it.connection_data.sequence != w["seq"] or bytes(bytearray(it.connection_data.request.input)) != bytes(bytearray(w["msg"])):
+                                out.append("CPF: connected data item differs")
+                            fields["connection_data"] = {"sequence": w["seq"], "request": {"input": bytearray(w["msg"])}}
+                        elif w["kind"] == "services":
+                            chk = {"version": w["item"]["version"], "capability": w["item"]["capability"],
+                                   "service_name": bytes(bytearray(w["item"]["name"])).decode("iso-8859-1")}
+                            d = W.subset(chk, it.communications_service)
+                            if d:
+                                out.append("CPF: services item differs: %s" % d[:2])
+                            fields["communications_service"] = chk
+                        elif w["kind"] == "legacy":
+                            x = w["item"]
+                            chk = {"version": x["version"], "sin_family": x["family"], "sin_port": x["port"],
+                                   "sin_addr": ".".join(str(o) for o in x["addr"]), "ip_address": bytes(bytearray(x["text"])).decode("ascii")}
+                            d = W.subset(chk, it.legacy_CPF_0x0001)
+                            if d:
+                                out.append("CPF: legacy item differs: %s" % d[:2])
+                            fields["legacy_CPF_0x0001"] = chk
+                        mine.append(fields)
+                    same("CPF.produce(parse)", parser.CPF.produce(g))
+                    same("CPF.produce(fields)", parser.CPF.produce(W.dd({"item": mine} if mine else {"count": 0})))
         elif k == "frame":
             f = v["f"]
             data, sent, term, exc = W.run_parser(parser.enip_machine(context="enip", terminal=True), v["b"])
